@@ -271,7 +271,9 @@ func (iter *inIndexIterator) nextIterator() (bool, error) {
 
 // createIteratorForNextValue initializes the next index iterator based on the current value index.
 func (iter *inIndexIterator) createIteratorForNextValue() error {
-	if iter.isUnique {
+	// the unique index entry of a document with a nil field has the docID appended to its key
+	// and can't be fetched by the exact key
+	if iter.isUnique && !iter.inValues[iter.nextValIndex].IsNil() {
 		indexIter, err := iter.fetcher.newEqSingleIndexIterator(iter.inValues[iter.nextValIndex], iter.fieldConditions)
 		if err != nil {
 			return err
